@@ -266,7 +266,7 @@ class C18(vlib.Driver):
                     path.unlink()
         if prep == "gamma_assigned":          # a direct assignment on the live agent (after one learn with the old value)
             learned(ag)
-            ag.gamma = [0.9, 0.5, 0.25, 0.99][seed % 4] if case["gamma"] not in (0.9,) else 0.5
+            ag.gamma = [g for g in (0.9, 0.5, 0.25, 0.99) if g != case["gamma"]][seed % 3]
             return ag
         if prep == "gamma_mutated":           # Mutations.rl_hyperparam_mutation: setattr(agent, "gamma", new value)
             learned(ag)
